@@ -555,6 +555,14 @@ func Run(cfg *common.Config) (*common.Report, error) {
 	for i := 0; i < cfg.Pick(20, 500); i++ {
 		d.rawCase(d.whitespaceRaw(), "whitespace", cfg.Rng.Intn(3), false)
 	}
+	for i := 0; i < cfg.Pick(20, 500); i++ {
+		d.docCase(d.sameNodeInGraphsDoc(), cfg.Rng.Intn(3))
+		d.rawCase(d.sameNodeInGraphsRaw(), "same-node-in-graphs", cfg.Rng.Intn(3), false)
+		d.docCase(d.fractionalIntegerDoc(), cfg.Rng.Intn(3))
+		d.rawCase(d.fractionalIntegerRaw(), "fractional-integer", cfg.Rng.Intn(3), true)
+		d.docCase(d.emptyNodeDoc(), cfg.Rng.Intn(3))
+		d.docCase(d.twoFieldsOneNodeDoc(), cfg.Rng.Intn(3))
+	}
 	for i := 0; i < cfg.Pick(36, 900); i++ {
 		d.docCase(d.emptyStringDoc(), []int{0, hiEmptyNil, hiEmptyBig, 2}[i%4]) // not 1: the salted hasher hashes "salt:"
 	}
